@@ -1,7 +1,8 @@
 (* MemBuf/Props.v — theorems of property C08 (ART ≡ RBT ≡ reference model).
    L0 = Staged.v (reference: stack of staging levels over an ordered map),
    L1 = VLog.v (key table + append-only value log with old links: the mechanism shared by ART and RBT). *)
-From Verif Require Import MemBuf.Model MemBuf.Art MemBuf.ProofsArt MemBuf.ProofsKMap MemBuf.ProofsLog MemBuf.ProofsSim MemBuf.ProofsObs
+From Verif Require Import MemBuf.Model MemBuf.Art MemBuf.ProofsArt MemBuf.ProofsArtIns MemBuf.ProofsArtIns2
+  MemBuf.ProofsArtMap MemBuf.ProofsArtL1 MemBuf.ProofsKMap MemBuf.ProofsLog MemBuf.ProofsSim MemBuf.ProofsObs
   MemBuf.ProofsSet MemBuf.ProofsRevert MemBuf.ProofsStep MemBuf.ProofsProps.
 
 (* 1. Refinement.  Over ALL operation sequences — mutators and observers, valid and invalid handles /
@@ -186,14 +187,38 @@ Theorem C08_L2_seek_lower_bound :
 Proof. intros lo. exact (proj1 (seek_ge_spec_both lo)). Qed.
 Print Assumptions C08_L2_seek_lower_bound.
 
-(* insert (recursiveInsert with expandLeafIfNeeded / expandNode / node growth) builds the ordered map: in-order =
-   sorted set of the inserted keys, lookup = membership, lower-bound seek = first key >= bound — PARTIAL: checked
-   exhaustively for all 16 105 insertion sequences of length <= 4 over an 11-key adversarial universe; the unbounded
-   statement (insert preserves wf and adds exactly its key) is not proven, it is exercised by the structure
-   differential on every run instead. *)
-Theorem C08_L2_insert_is_map_partial : forallb map_ok (seqs 4) = true.
-Proof. exact bounded_map_ok. Qed.
-Print Assumptions C08_L2_insert_is_map_partial.
+(* insert = recursiveInsert with expandLeafIfNeeded (leaf -> node4 over the common prefix, the exhausted key as
+   in-place leaf), expandNode (prefix split, the old node re-prefixed from its stored bytes or its minimum leaf),
+   matchDeep through the minimum leaf for prefixes longer than 20 bytes, sorted child insertion: it keeps the tree
+   well-formed and the abstraction (in-order traversal) gets exactly the new key — for ALL trees and keys *)
+Theorem C08_L2_insert_preserves_wf :
+  forall o k, wf_root o ->
+    wf_root (insert_root k o) /\
+    forall k', In k' (keys_of_tree (insert_root k o)) <-> k' = k \/ In k' (keys_of_tree o).
+Proof. exact insert_root_ok. Qed.
+Print Assumptions C08_L2_insert_preserves_wf.
+
+(* the tree built by ANY sequence of inserts is an ordered map: well-formed, in-order traversal = the key column
+   of the sorted association list built by kupsert from the same bindings (the index of L1), lookup = membership *)
+Theorem C08_L2_is_map :
+  forall (A : Type) (vs : list (key * A)),
+    let t := build (map fst vs) in
+    wf_root t /\
+    keys_of_tree t = map fst (fold_left (fun m kv => kupsert (fst kv) (snd kv) m) vs []) /\
+    forall k, lookup k t = true <-> In k (map fst vs).
+Proof.
+  intros A vs t. destruct (build_ok (map fst vs)) as [W M]. split; [exact W|]. split; [exact (tree_is_table vs)|].
+  intros k. unfold t. rewrite (C08_L2_lookup_is_membership _ k W). apply M.
+Qed.
+Print Assumptions C08_L2_is_map.
+
+(* L2 indexes L1: after ANY operation sequence the key column of L1's table (which L1 searches and iterates) is
+   the in-order traversal of the radix tree built from the keys that Set / UpdateFlags passed to
+   traverse(insert) — the keys rejected by the size checks never reach the tree, undone keys keep their leaf *)
+Theorem C08_L2_indexes_L1 :
+  forall ops, map fst (keys1 (exec1 init1 ops)) = keys_of_tree (build (inserted init1 ops)).
+Proof. exact tree_indexes_table. Qed.
+Print Assumptions C08_L2_indexes_L1.
 
 Definition l2_ex_tree : option art := Eval vm_compute in build [[1%N; 2%N]; [1%N]; [1%N; 3%N]].
 Example l2_wf_nonvacuous : wf_root l2_ex_tree.
